@@ -20,6 +20,12 @@ class InjectedOSFault(OSError):
     pass
 
 
+class InjectedValueFault(ValueError):
+    """The exception type numerical code raises most (shape / value problems): handlers written for an *expected*
+    ValueError must not swallow an unexpected one."""
+    pass
+
+
 class State:
     root = None            # directory of the staged thejoker package
     mode = "off"           # off | record | inject
@@ -93,9 +99,9 @@ def record():
     sys.monitoring.restart_events()
 
 
-def inject(key, k, base=False, oserr=False):
+def inject(key, k, base=False, oserr=False, value=False):
     State.mode, State.counts, State.target, State.fired = "inject", {}, (key, k), 0
-    State.exc = InjectedBaseFault if base else InjectedOSFault if oserr else InjectedFault
+    State.exc = InjectedBaseFault if base else InjectedOSFault if oserr else InjectedValueFault if value else InjectedFault
     sys.monitoring.restart_events()
 
 
@@ -177,7 +183,7 @@ def fault_is_what_was_raised(exc):
     e = exc
     while e is not None and id(e) not in seen:
         seen.add(id(e))
-        if isinstance(e, (InjectedFault, InjectedBaseFault, InjectedOSFault)) or "injected at" in str(e):
+        if isinstance(e, (InjectedFault, InjectedBaseFault, InjectedOSFault, InjectedValueFault)) or "injected at" in str(e):
             return True
         e = e.__cause__
     return False
@@ -191,7 +197,7 @@ def chain_has_fault(exc):
         if e is None or id(e) in seen:
             continue
         seen.add(id(e))
-        if isinstance(e, (InjectedFault, InjectedBaseFault, InjectedOSFault)) or "injected at" in str(e):
+        if isinstance(e, (InjectedFault, InjectedBaseFault, InjectedOSFault, InjectedValueFault)) or "injected at" in str(e):
             return True
         stack.append(e.__cause__)
         stack.append(e.__context__)
